@@ -200,6 +200,8 @@ pub struct RunOut {
     pub fails: Vec<Fail>,
     pub injected: bool,
     pub panicked: bool,
+    /// what the executor returned for the call
+    pub ret: Value,
 }
 
 fn translate(ctx: &Ctx, log: &[(char, u32, u32)]) -> Vec<(char, i64, i64)> {
@@ -252,7 +254,7 @@ fn run_map<const N: usize>(mode: Mode, t: &Value, panic_at: u64, script: Option<
         l.eq_default = false;
         l.log_cb = true;
     });
-    let _ret = exec_map(&mut cage, &t["o"], &mut ctx);
+    let ret = exec_map(&mut cage, &t["o"], &mut ctx);
     let (callbacks, eq_asked, cb_log) = ledger::with(|l| {
         l.panic_at = 0;
         let asked = l.eq_pos;
@@ -272,7 +274,7 @@ fn run_map<const N: usize>(mode: Mode, t: &Value, panic_at: u64, script: Option<
         let cb_tags = translate(&ctx, &cb_log);
         std::mem::forget(cage);
         std::mem::forget(ctx);
-        return RunOut { cb_tags, post: None, callbacks, eq_asked, cb_log, fails, injected, panicked };
+        return RunOut { cb_tags, post: None, callbacks, eq_asked, cb_log, fails, injected, panicked, ret: ret.clone() };
     }
     let post: Vec<(KO, Option<VO>)> = observe_map(&cage.m).into_iter().map(|(k, v)| (k, Some(v))).collect();
     bind_late(&mut ctx);
@@ -285,7 +287,7 @@ fn run_map<const N: usize>(mode: Mode, t: &Value, panic_at: u64, script: Option<
     further_use_map(mode, &mut cage, &mut viol_seen, &mut fails);
     drop(cage);
     end_viol(mode, &mut viol_seen, &mut fails);
-    RunOut { cb_tags, post: Some(post_tags), callbacks, eq_asked, cb_log, fails, injected, panicked }
+    RunOut { cb_tags, post: Some(post_tags), callbacks, eq_asked, cb_log, fails, injected, panicked, ret: ret.clone() }
 }
 
 fn run_set<const N: usize>(mode: Mode, t: &Value, panic_at: u64, script: Option<Vec<bool>>) -> RunOut {
@@ -319,7 +321,7 @@ fn run_set<const N: usize>(mode: Mode, t: &Value, panic_at: u64, script: Option<
         l.eq_default = false;
         l.log_cb = true;
     });
-    let _ret = exec_set(&mut cage, &t["o"], &mut ctx);
+    let ret = exec_set(&mut cage, &t["o"], &mut ctx);
     let (callbacks, eq_asked, cb_log) = ledger::with(|l| {
         l.panic_at = 0;
         let asked = l.eq_pos;
@@ -339,7 +341,7 @@ fn run_set<const N: usize>(mode: Mode, t: &Value, panic_at: u64, script: Option<
         let cb_tags = translate(&ctx, &cb_log);
         std::mem::forget(cage);
         std::mem::forget(ctx);
-        return RunOut { cb_tags, post: None, callbacks, eq_asked, cb_log, fails, injected, panicked };
+        return RunOut { cb_tags, post: None, callbacks, eq_asked, cb_log, fails, injected, panicked, ret: ret.clone() };
     }
     let post: Vec<(KO, Option<VO>)> = observe_set(&cage.m).into_iter().map(|k| (k, None)).collect();
     bind_late(&mut ctx);
@@ -351,7 +353,7 @@ fn run_set<const N: usize>(mode: Mode, t: &Value, panic_at: u64, script: Option<
     further_use_set(mode, &mut cage, &mut viol_seen, &mut fails);
     drop(cage);
     end_viol(mode, &mut viol_seen, &mut fails);
-    RunOut { cb_tags, post: Some(post_tags), callbacks, eq_asked, cb_log, fails, injected, panicked }
+    RunOut { cb_tags, post: Some(post_tags), callbacks, eq_asked, cb_log, fails, injected, panicked, ret: ret.clone() }
 }
 
 pub fn run_any(mode: Mode, set_mode: bool, t: &Value, panic_at: u64, script: Option<Vec<bool>>) -> RunOut {
